@@ -308,319 +308,6 @@ Theorem C05_example_prelude :
 Proof. exact (conj ex6_RegistryOf (conj ex6_settings_ok ex6_hypotheses)). Qed.
 Print Assumptions C05_example_prelude.
 
-(** ** the emission step (Model/ProgramEmit.v, Proofs/SourceEmission.v) - closes the "MISSING" item
-    of the header: the tokens printed for the IR of a coincidence-free instantiation, read back by
-    Checkers/Parse.v and stripped of derives / docs / user attributes, are [expected_item] of the
-    SOURCE definition.
-
-    Chain: [C05_skeleton_is_source] (erased IR = [ir_of_source sd])
-       ->  [C05_expected_item_of_ir] (parse tree [item_of_ir s ir], stripped = [expected_item sd])
-       ->  [C02_syn_forms] / [C02_emit_parses] (the printed tokens parse to [item_of_ir s ir])
-       =   [C05_source_roundtrip] (one item), [C05_source_roundtrip_module] (the whole module, i.e.
-           the computation of the checker [prop_source_roundtrip], Corr/RunC05.v),
-           [C05_checker_accepts_model] ([prop_source_roundtrip c = true] when the observed tokens
-           are the model's).
-    [strip_item] and [expected_of] are the checker's own definitions (Corr/RunC05.v).
-    [expected_of_source defs s order_tp sd] (Model/ProgramEmit.v) is [expected_item] with the
-    token-level parameters read off the settings ([C05_expected_of_source_def]); it is the checker's
-    [expected_of] when the bit-order markers are substituted as the harness does
-    ([C05_expected_of_source_settings], [C05_checker_expected_of]).
-    Hypotheses beyond those of [C05_skeleton_is_source] / [C05_fields_read_as_source]:
-    - [ir_plain s ir] (C02's scope: user supplied path tokens are plain paths, user derives are
-      balanced, names are identifiers), needed to identify the reader's result with [tpath_pty];
-    - [names_uniformb sd]: the fields of the struct / of each variant are all named or all unnamed
-      (true of every Rust definition; [sbody] is wider).  In [C05_source_roundtrip*] it is DERIVED
-      from the successful IR construction ([C05_names_uniform]);
-    - [C05_source_roundtrip*]: definitions have pairwise distinct paths, the definition does not sit
-      at the path of a bit-order marker, and EVERY interned instantiation of the definition is
-      coincidence-free ([cf_def] of the checker): the item kept at the path is the IR of the first
-      one, whichever that is. *)
-From V Require Import Model.Emit Model.Unparse Model.ProgramEmit Corr.RunTG Corr.RunC05 Proofs.SourceEmission.
-
-(** stripping forgets exactly what [erase_ids] forgets (ids / original names in parameters, docs,
-    derives): the stripped parse tree is a function of the erased IR *)
-Theorem C05_strip_forgets_erased :
-  forall s ir, strip_item (item_of_ir s (erase_ids ir)) = strip_item (item_of_ir s ir).
-Proof. exact strip_item_erase. Qed.
-Print Assumptions C05_strip_forgets_erased.
-
-(** on plain paths the reader's result [ir_pty] (C02_type_parses) is the reading [tpath_pty] of
-    [C05_tpath_pty_is_src_pty] *)
-Theorem C05_parse_reading_is_tpath_pty :
-  forall defs s, render_okb s defs = true -> alloc_okb (alloc_tokens (s_alloc s)) = true ->
-  forall t, tp_plain t = true ->
-  ir_pty (alloc_tokens (s_alloc s)) t = tpath_pty (ProgramSkel.alloc_segs s) t.
-Proof. exact ir_pty_tpath_pty. Qed.
-Print Assumptions C05_parse_reading_is_tpath_pty.
-
-Theorem C05_expected_of_source_def :
-  forall defs s order_tp d,
-    expected_of_source defs s order_tp d =
-    expected_item defs (s_root s) (ProgramSkel.alloc_segs s)
-                  (segs_lead_of (opt_toks (s_compact s))) (segs_lead_of (opt_toks (s_bits s)))
-                  (fun lsb => tpath_pty (ProgramSkel.alloc_segs s) (order_tp lsb)) (s_codec s) d.
-Proof. reflexivity. Qed.
-Print Assumptions C05_expected_of_source_def.
-
-(** the emitted item of the skeleton of a source definition: generics [_i] for exactly the
-    non-skipped parameters in order, field names, field types = [field_pty] of the source fields,
-    [#[codec(compact)]] / [#[codec(index = i)]] attributes, ONE trailing [__ignore] / [__Ignore]
-    marker naming exactly the unused parameters ([C05_spec_generics], .. say what [expected_item] is) *)
-Theorem C05_source_item_expected :
-  forall defs s order_tp sd,
-  render_okb s defs = true ->
-  ir_plain s (ir_of_source defs s order_tp sd) = true ->
-  names_uniformb sd = true ->
-  forallb (fun f => apps_okb defs (sf_ty f) && field_conv_okb f) (def_sfields sd) = true ->
-  strip_item (item_of_ir s (ir_of_source defs s order_tp sd)) =
-  expected_item defs (s_root s) (ProgramSkel.alloc_segs s)
-                (segs_lead_of (opt_toks (s_compact s))) (segs_lead_of (opt_toks (s_bits s)))
-                (fun lsb => tpath_pty (ProgramSkel.alloc_segs s) (order_tp lsb)) (s_codec s) sd.
-Proof. exact source_item_expected. Qed.
-Print Assumptions C05_source_item_expected.
-
-(** (1) from the erased IR to the stripped parse tree *)
-Theorem C05_expected_item_of_ir :
-  forall defs s order_tp sd ir,
-  render_okb s defs = true ->
-  names_uniformb sd = true ->
-  forallb (fun f => apps_okb defs (sf_ty f) && field_conv_okb f) (def_sfields sd) = true ->
-  ir_plain s ir = true ->
-  erase_ids ir = ir_of_source defs s order_tp sd ->
-  strip_item (item_of_ir s ir) =
-  expected_item defs (s_root s) (ProgramSkel.alloc_segs s)
-                (segs_lead_of (opt_toks (s_compact s))) (segs_lead_of (opt_toks (s_bits s)))
-                (fun lsb => tpath_pty (ProgramSkel.alloc_segs s) (order_tp lsb)) (s_codec s) sd.
-Proof. exact expected_item_of_ir. Qed.
-Print Assumptions C05_expected_item_of_ir.
-
-(** successful IR construction on the entry of an instantiation: fields uniformly named *)
-Theorem C05_names_uniform :
-  forall defs L r s d sd args t flat ir,
-  nth_error defs d = Some sd -> entry_of defs L r (SApp d args) t ->
-  create_type_ir r s t flat = Ok (Some ir) -> names_uniformb sd = true.
-Proof. exact names_uniform_of_ir. Qed.
-Print Assumptions C05_names_uniform.
-
-(** (2) the round trip for one item: whenever generation succeeds and the definition is
-    instantiated at all, an item is kept at the definition's path, and the tokens the model emits
-    for it parse ([parse_one_item]) to an item whose [strip_item] is the expected item of the
-    SOURCE definition *)
-Theorem C05_source_roundtrip :
-  forall defs L r s (order_tp : bool -> tpath),
-  RegistryOf defs L r -> (forall sd, In sd defs -> def_okb s sd = true) ->
-  prelude_okb s = true -> order_resolves s order_tp -> render_okb s defs = true ->
-  (forall d1 d2 sd1 sd2,
-     nth_error defs d1 = Some sd1 -> nth_error defs d2 = Some sd2 -> sd_path sd1 = sd_path sd2 -> d1 = d2) ->
-  forall d sd, nth_error defs d = Some sd ->
-  forallb (fun f => no_cow_cow (sf_ty f)) (def_sfields sd) = true ->
-  box_names_okb defs sd = true ->
-  forallb (fun f => apps_okb defs (sf_ty f) && field_conv_okb f) (def_sfields sd) = true ->
-  (forall lsb, sd_path sd <> order_path_of lsb) ->
-  (forall id args, L id = Some (SApp d args) ->
-     instantiation_cf defs sd args = true /\ map canon args = args /\ compact_fields_okb defs sd args = true) ->
-  forall teq m, generate r s teq = Ok m ->
-  forall id args, L id = Some (SApp d args) ->
-  exists id0 ir,
-    items_get m (sd_path sd) = Some (id0, ir) /\
-    (ir_plain s ir = true -> strip_item (item_of_ir s ir) = expected_of_source defs s order_tp sd) /\
-    forall toks, type_ir_tokens s ir = Ok toks -> ir_plain s ir = true ->
-      exists it, parse_one_item toks = Some it /\ strip_item it = expected_of_source defs s order_tp sd.
-Proof. exact source_roundtrip_item. Qed.
-Print Assumptions C05_source_roundtrip.
-
-(** ... and for the whole module, in the checker's own terms: the emitted module parses
-    ([parse_module]), [lookup_item] finds an item at the definition's path, and its [strip_item] is
-    the expected item ([prop_source_roundtrip]: [pitem_eqb (strip_item it) (expected_of c d)]) *)
-Theorem C05_source_roundtrip_module :
-  forall defs L r s (order_tp : bool -> tpath),
-  RegistryOf defs L r -> (forall sd, In sd defs -> def_okb s sd = true) ->
-  prelude_okb s = true -> order_resolves s order_tp -> render_okb s defs = true ->
-  (forall d1 d2 sd1 sd2,
-     nth_error defs d1 = Some sd1 -> nth_error defs d2 = Some sd2 -> sd_path sd1 = sd_path sd2 -> d1 = d2) ->
-  forall d sd, nth_error defs d = Some sd ->
-  forallb (fun f => no_cow_cow (sf_ty f)) (def_sfields sd) = true ->
-  box_names_okb defs sd = true ->
-  forallb (fun f => apps_okb defs (sf_ty f) && field_conv_okb f) (def_sfields sd) = true ->
-  (forall lsb, sd_path sd <> order_path_of lsb) ->
-  (forall id args, L id = Some (SApp d args) ->
-     instantiation_cf defs sd args = true /\ map canon args = args /\ compact_fields_okb defs sd args = true) ->
-  forall teq m, generate r s teq = Ok m ->
-  forall id args toks, L id = Some (SApp d args) ->
-  emit_module s m = Ok toks -> items_plain s m = true ->
-  exists pm it, parse_module toks = Some pm /\ lookup_item pm (sd_path sd) = Some it /\
-                strip_item it = expected_of_source defs s order_tp sd.
-Proof. exact source_roundtrip_module. Qed.
-Print Assumptions C05_source_roundtrip_module.
-
-(** "all instantiations of one definition yield one and the same item": [C05_one_item] carried
-    through the emission - the parse trees of the items printed for two coincidence-free
-    instantiations agree up to derives / docs / user attributes (no plainness hypothesis) *)
-Theorem C05_one_stripped_item :
-  forall defs L r s (order_tp : bool -> tpath),
-  RegistryOf defs L r -> (forall sd, In sd defs -> def_okb s sd = true) ->
-  prelude_okb s = true -> order_resolves s order_tp ->
-  forall d sd, nth_error defs d = Some sd ->
-  forallb (fun f => no_cow_cow (sf_ty f)) (def_sfields sd) = true -> box_names_okb defs sd = true ->
-  forall args1 args2 t1 t2 flat1 flat2 ir1 ir2,
-  instantiation_cf defs sd args1 = true -> map canon args1 = args1 -> compact_fields_okb defs sd args1 = true ->
-  instantiation_cf defs sd args2 = true -> map canon args2 = args2 -> compact_fields_okb defs sd args2 = true ->
-  entry_of defs L r (SApp d args1) t1 -> entry_of defs L r (SApp d args2) t2 ->
-  create_type_ir r s t1 flat1 = Ok (Some ir1) -> create_type_ir r s t2 flat2 = Ok (Some ir2) ->
-  strip_item (item_of_ir s ir1) = strip_item (item_of_ir s ir2).
-Proof. exact one_stripped_item. Qed.
-Print Assumptions C05_one_stripped_item.
-
-(** the correspondence with the checker's [expected_of]: it is [expected_of_settings] at the
-    program and the settings of the case (by conversion), and [expected_of_source] equals
-    [expected_of_settings] when the bit-order markers read as [::bits::order::{Lsb0,Msb0}] (needed
-    only for the bit orders of the bit sequences the definition mentions, [def_mentions_order]) *)
-Theorem C05_checker_expected_of :
-  forall c d, expected_of c d =
-              expected_of_settings (pg_defs (c5_prog c)) (settings_of (tg_spec (c5_tg c))) d.
-Proof. reflexivity. Qed.
-Print Assumptions C05_checker_expected_of.
-
-Theorem C05_expected_of_source_settings :
-  forall defs s order_tp d,
-  (forall lsb, def_mentions_order d lsb = true ->
-               tpath_pty (ProgramSkel.alloc_segs s) (order_tp lsb) = bits_order_pty lsb) ->
-  expected_of_source defs s order_tp d = expected_of_settings defs s d.
-Proof. exact expected_of_source_settings. Qed.
-Print Assumptions C05_expected_of_source_settings.
-
-(** the reading hypothesis of the last theorem holds for a bit order whose marker the settings
-    substitute by [::bits::order::{Lsb0,Msb0}] (the harness does so for the markers that occur in the
-    registry, harness/src/tg.rs [bit_order_subs]) *)
-Theorem C05_bits_order_reading :
-  forall (order_tp : bool -> tpath) lsb,
-  order_tp lsb = TPath (abs_path ["bits"; "order"; if lsb then "Lsb0" else "Msb0"]) [] ->
-  forall asegs, tpath_pty asegs (order_tp lsb) = bits_order_pty lsb.
-Proof. exact bits_order_reading. Qed.
-Print Assumptions C05_bits_order_reading.
-
-(** the checker on the model's own output: when the observed tokens ARE the model's tokens
-    ([corr_gen]), [prop_source_roundtrip] accepts.  Per definition with [cf_def c k sd] (all of its
-    recorded instantiations coincidence-free): the per-definition hypotheses of
-    [C05_source_roundtrip], the definition is interned at all, and every interned instantiation
-    (labels are in [canon] form) is the [canon] form of a recorded one ([insts_of c k]; coincidence-
-    freeness does not depend on the form: [C05_instantiation_cf_canon]) *)
-Theorem C05_instantiation_cf_canon :
-  forall defs d args, instantiation_cf defs d (map canon args) = instantiation_cf defs d args.
-Proof. exact instantiation_cf_canon. Qed.
-Print Assumptions C05_instantiation_cf_canon.
-
-Theorem C05_checker_accepts_model :
-  forall (c : c05_case) (order_tp : bool -> tpath) teq m toks,
-  let defs := pg_defs (c5_prog c) in
-  let r := tg_reg (c5_tg c) in
-  let s := settings_of (tg_spec (c5_tg c)) in
-  let L := label_at (c5_labels c) in
-  RegistryOf defs L r ->
-  (forall sd, In sd defs -> def_okb s sd = true) ->
-  prelude_okb s = true -> order_resolves s order_tp -> render_okb s defs = true ->
-  (forall d1 d2 sd1 sd2,
-     nth_error defs d1 = Some sd1 -> nth_error defs d2 = Some sd2 -> sd_path sd1 = sd_path sd2 -> d1 = d2) ->
-  (forall k sd, nth_error defs k = Some sd -> cf_def c k sd = true ->
-     forallb (fun f => no_cow_cow (sf_ty f)) (def_sfields sd) = true /\ box_names_okb defs sd = true /\
-     forallb (fun f => apps_okb defs (sf_ty f) && field_conv_okb f) (def_sfields sd) = true /\
-     (forall lsb, sd_path sd <> order_path_of lsb) /\
-     (forall lsb, def_mentions_order sd lsb = true ->
-                  tpath_pty (ProgramSkel.alloc_segs s) (order_tp lsb) = bits_order_pty lsb) /\
-     (exists id args, L id = Some (SApp k args)) /\
-     (forall id args, L id = Some (SApp k args) ->
-        (exists args', In args' (insts_of c k) /\ args = map canon args') /\
-        compact_fields_okb defs sd args = true)) ->
-  generate r s teq = Ok m -> emit_module s m = Ok toks -> items_plain s m = true ->
-  tg_gen (c5_tg c) = OOk toks ->
-  prop_source_roundtrip c = true.
-Proof. exact prop_source_roundtrip_of_model. Qed.
-Print Assumptions C05_checker_accepts_model.
-
-(** ... and all of these hypotheses as ONE boolean on a case, [hyp_emission_theorem]
-    (Corr/RunC05Emit.v: [registry_ofb], [prelude_nodocs_b], [def_okb], [prelude_okb],
-    [order_resolvesb], [render_okb], pairwise distinct paths, per coincidence-free definition
-    [def_emission_okb], the model generates and emits plain items; vacuous when the model does not
-    emit a module).  On every case on which it holds, the verdict of the checker is a CONSEQUENCE of
-    the model correspondence [corr_gen] *)
-From V Require Import Corr.RunC05Emit.
-Theorem C05_checker_verdict_from_correspondence :
-  forall c : c05_case,
-    hyp_emission_theorem c = true -> corr_gen (c5_tg c) = true -> prop_source_roundtrip c = true.
-Proof. exact hyp_emission_sound. Qed.
-Print Assumptions C05_checker_verdict_from_correspondence.
-
-(** (3) examples, both sides computed: left, the model generates, emits the module, the tokens are
-    read back, the item is looked up ([model_item_at]) and stripped; right, [expected_item] of the
-    source definition.
-    ex8 [a::Ph<T, U, V> { x: Vec<T>, #[codec(compact)] n: u32 }]: two unused parameters, marker
-    field [#[codec(skip)] pub __ignore: PhantomData<(_1, _2)>] *)
-Theorem C05_example_emission_marker :
-  option_map strip_item (model_item_at ex8_reg ex8_s ["a"; "Ph"]) =
-    Some (expected_of_source ex8_defs ex8_s ex8_otp ex8_sd) /\
-  expected_of_source ex8_defs ex8_s ex8_otp ex8_sd =
-  mk_pitem [] false "Ph" ["_0"; "_1"; "_2"]
-    (BNamed [mk_pfield [] true (Some "x") (PPath true [("std", []); ("vec", []); ("Vec", [PPath false [("_0", [])]])]);
-             mk_pfield [["codec"; "("; "compact"; ")"]] true (Some "n")
-                       (PPath true [("core", []); ("primitive", []); ("u32", [])]);
-             mk_pfield [["codec"; "("; "skip"; ")"]] true (Some "__ignore")
-                       (PPath true [("core", []); ("marker", []);
-                                    ("PhantomData", [PTuple [PPath false [("_1", [])]; PPath false [("_2", [])]]])])])
-    [] false.
-Proof. exact (conj ex8_roundtrip ex8_expected). Qed.
-Print Assumptions C05_example_emission_marker.
-
-(** ex9 [a::En<T, U> { A(T, Box<Vec<T>>) = 0, B { n: Compact<u32> } = 1, C = 5 }]: an enum, U unused *)
-Theorem C05_example_emission_enum :
-  option_map strip_item (model_item_at ex9_reg ex8_s ["a"; "En"]) =
-    Some (expected_of_source ex9_defs ex8_s ex8_otp ex9_sd) /\
-  expected_of_source ex9_defs ex8_s ex8_otp ex9_sd =
-  mk_pitem [] true "En" ["_0"; "_1"] BUnit
-    [mk_pvariant [["codec"; "("; "index"; "="; "0"; ")"]] "A"
-       (BTuple [mk_pfield [] false None (PPath false [("_0", [])]);
-                mk_pfield [] false None
-                  (PPath true [("std", []); ("boxed", []);
-                               ("Box", [PPath true [("std", []); ("vec", []); ("Vec", [PPath false [("_0", [])]])]])])]);
-     mk_pvariant [["codec"; "("; "index"; "="; "1"; ")"]] "B"
-       (BNamed [mk_pfield [["codec"; "("; "compact"; ")"]] false (Some "n")
-                          (PPath true [("core", []); ("primitive", []); ("u32", [])])]);
-     mk_pvariant [["codec"; "("; "index"; "="; "5"; ")"]] "C" BUnit;
-     mk_pvariant [] "__Ignore"
-       (BTuple [mk_pfield [] false None
-                  (PPath true [("core", []); ("marker", []); ("PhantomData", [PPath false [("_1", [])]])])])]
-    false.
-Proof. exact (conj ex9_roundtrip ex9_expected). Qed.
-Print Assumptions C05_example_emission_enum.
-
-(** the programs of Model/ProgramExamples.v and of [C05_example] *)
-Theorem C05_example_emission_programs :
-  option_map strip_item (model_item_at ex6_reg ex6_s ["a"; "Bar"]) =
-    Some (expected_of_source ex6_defs ex6_s ex6_otp ex6_sd) /\
-  option_map strip_item (model_item_at ex7_reg f19_s ["a"; "Pt"]) =
-    Some (expected_of_source ex7_defs f19_s (order_tp_of f19_s) ex7_sd) /\
-  option_map strip_item (model_item_at ex5_reg ex5_s ["a"; "Foo"]) =
-    Some (expected_of_source ex5_defs ex5_s ex5_otp ex5_sd).
-Proof. exact (conj ex6_roundtrip (conj ex7_roundtrip ex5_roundtrip)). Qed.
-Print Assumptions C05_example_emission_programs.
-
-(** non-vacuity of [C05_source_roundtrip_module]: on ex8 the registry is the program's
-    ([registry_ofb]), generation and emission succeed on plain items, and the conclusion is obtained
-    FROM THE THEOREM (every hypothesis is discharged in Proofs/SourceEmission.v [ex8_by_theorem]) *)
-Theorem C05_example_emission_by_theorem :
-  registry_ofb ex8_defs ex8_labels ex8_reg = true /\ registry_ofb ex9_defs ex9_labels ex9_reg = true /\
-  (exists m toks, generate ex8_reg ex8_s (types_equal ex8_reg) = Ok m /\ emit_module ex8_s m = Ok toks /\
-                  items_plain ex8_s m = true) /\
-  (forall m toks,
-     generate ex8_reg ex8_s (types_equal ex8_reg) = Ok m -> emit_module ex8_s m = Ok toks ->
-     items_plain ex8_s m = true ->
-     exists pm it, parse_module toks = Some pm /\ lookup_item pm ["a"; "Ph"] = Some it /\
-                   strip_item it = expected_of_source ex8_defs ex8_s ex8_otp ex8_sd).
-Proof.
-  exact (conj (proj1 ex8_facts) (conj (proj1 (proj2 ex8_facts)) (conj (proj2 (proj2 ex8_facts)) ex8_by_theorem))).
-Qed.
-Print Assumptions C05_example_emission_by_theorem.
-
-
 (** ** the round trip on REAL registries: one-step identity (Model/Program1.v, Proofs/Ident1.v,
     SourceRoundTrip1.v, SourceSkeleton1.v, RegistryOf1Sound.v, Program1Examples.v)
 
@@ -967,3 +654,316 @@ Theorem C05_example_types_equal_duplicates :
   is_ok (generate tq1_reg ex5_s (types_equal tq1_reg)) = true.
 Proof. exact tq1_example. Qed.
 Print Assumptions C05_example_types_equal_duplicates.
+
+
+(** ** the emission step (Model/ProgramEmit.v, Proofs/SourceEmission.v) - closes the "MISSING" item
+    of the header: the tokens printed for the IR of a coincidence-free instantiation, read back by
+    Checkers/Parse.v and stripped of derives / docs / user attributes, are [expected_item] of the
+    SOURCE definition.
+
+    Chain: [C05_skeleton_is_source] (erased IR = [ir_of_source sd])
+       ->  [C05_expected_item_of_ir] (parse tree [item_of_ir s ir], stripped = [expected_item sd])
+       ->  [C02_syn_forms] / [C02_emit_parses] (the printed tokens parse to [item_of_ir s ir])
+       =   [C05_source_roundtrip] (one item), [C05_source_roundtrip_module] (the whole module, i.e.
+           the computation of the checker [prop_source_roundtrip], Corr/RunC05.v),
+           [C05_checker_accepts_model] ([prop_source_roundtrip c = true] when the observed tokens
+           are the model's).
+    [strip_item] and [expected_of] are the checker's own definitions (Corr/RunC05.v).
+    [expected_of_source defs s order_tp sd] (Model/ProgramEmit.v) is [expected_item] with the
+    token-level parameters read off the settings ([C05_expected_of_source_def]); it is the checker's
+    [expected_of] when the bit-order markers are substituted as the harness does
+    ([C05_expected_of_source_settings], [C05_checker_expected_of]).
+    Hypotheses beyond those of [C05_skeleton_is_source] / [C05_fields_read_as_source]:
+    - [ir_plain s ir] (C02's scope: user supplied path tokens are plain paths, user derives are
+      balanced, names are identifiers), needed to identify the reader's result with [tpath_pty];
+    - [names_uniformb sd]: the fields of the struct / of each variant are all named or all unnamed
+      (true of every Rust definition; [sbody] is wider).  In [C05_source_roundtrip*] it is DERIVED
+      from the successful IR construction ([C05_names_uniform]);
+    - [C05_source_roundtrip*]: definitions have pairwise distinct paths, the definition does not sit
+      at the path of a bit-order marker, and EVERY interned instantiation of the definition is
+      coincidence-free ([cf_def] of the checker): the item kept at the path is the IR of the first
+      one, whichever that is. *)
+From V Require Import Model.Emit Model.Unparse Model.ProgramEmit Corr.RunTG Corr.RunC05 Proofs.SourceEmission.
+
+(** stripping forgets exactly what [erase_ids] forgets (ids / original names in parameters, docs,
+    derives): the stripped parse tree is a function of the erased IR *)
+Theorem C05_strip_forgets_erased :
+  forall s ir, strip_item (item_of_ir s (erase_ids ir)) = strip_item (item_of_ir s ir).
+Proof. exact strip_item_erase. Qed.
+Print Assumptions C05_strip_forgets_erased.
+
+(** on plain paths the reader's result [ir_pty] (C02_type_parses) is the reading [tpath_pty] of
+    [C05_tpath_pty_is_src_pty] *)
+Theorem C05_parse_reading_is_tpath_pty :
+  forall defs s, render_okb s defs = true -> alloc_okb (alloc_tokens (s_alloc s)) = true ->
+  forall t, tp_plain t = true ->
+  ir_pty (alloc_tokens (s_alloc s)) t = tpath_pty (ProgramSkel.alloc_segs s) t.
+Proof. exact ir_pty_tpath_pty. Qed.
+Print Assumptions C05_parse_reading_is_tpath_pty.
+
+Theorem C05_expected_of_source_def :
+  forall defs s order_tp d,
+    expected_of_source defs s order_tp d =
+    expected_item defs (s_root s) (ProgramSkel.alloc_segs s)
+                  (segs_lead_of (opt_toks (s_compact s))) (segs_lead_of (opt_toks (s_bits s)))
+                  (fun lsb => tpath_pty (ProgramSkel.alloc_segs s) (order_tp lsb)) (s_codec s) d.
+Proof. reflexivity. Qed.
+Print Assumptions C05_expected_of_source_def.
+
+(** the emitted item of the skeleton of a source definition: generics [_i] for exactly the
+    non-skipped parameters in order, field names, field types = [field_pty] of the source fields,
+    [#[codec(compact)]] / [#[codec(index = i)]] attributes, ONE trailing [__ignore] / [__Ignore]
+    marker naming exactly the unused parameters ([C05_spec_generics], .. say what [expected_item] is) *)
+Theorem C05_source_item_expected :
+  forall defs s order_tp sd,
+  render_okb s defs = true ->
+  ir_plain s (ir_of_source defs s order_tp sd) = true ->
+  names_uniformb sd = true ->
+  forallb (fun f => apps_okb defs (sf_ty f) && field_conv_okb f) (def_sfields sd) = true ->
+  strip_item (item_of_ir s (ir_of_source defs s order_tp sd)) =
+  expected_item defs (s_root s) (ProgramSkel.alloc_segs s)
+                (segs_lead_of (opt_toks (s_compact s))) (segs_lead_of (opt_toks (s_bits s)))
+                (fun lsb => tpath_pty (ProgramSkel.alloc_segs s) (order_tp lsb)) (s_codec s) sd.
+Proof. exact source_item_expected. Qed.
+Print Assumptions C05_source_item_expected.
+
+(** (1) from the erased IR to the stripped parse tree *)
+Theorem C05_expected_item_of_ir :
+  forall defs s order_tp sd ir,
+  render_okb s defs = true ->
+  names_uniformb sd = true ->
+  forallb (fun f => apps_okb defs (sf_ty f) && field_conv_okb f) (def_sfields sd) = true ->
+  ir_plain s ir = true ->
+  erase_ids ir = ir_of_source defs s order_tp sd ->
+  strip_item (item_of_ir s ir) =
+  expected_item defs (s_root s) (ProgramSkel.alloc_segs s)
+                (segs_lead_of (opt_toks (s_compact s))) (segs_lead_of (opt_toks (s_bits s)))
+                (fun lsb => tpath_pty (ProgramSkel.alloc_segs s) (order_tp lsb)) (s_codec s) sd.
+Proof. exact expected_item_of_ir. Qed.
+Print Assumptions C05_expected_item_of_ir.
+
+(** successful IR construction on the entry of an instantiation: fields uniformly named *)
+Theorem C05_names_uniform :
+  forall defs L r s d sd args t flat ir,
+  nth_error defs d = Some sd -> entry_of defs L r (SApp d args) t ->
+  create_type_ir r s t flat = Ok (Some ir) -> names_uniformb sd = true.
+Proof. exact names_uniform_of_ir. Qed.
+Print Assumptions C05_names_uniform.
+
+(** (2) the round trip for one item: whenever generation succeeds and the definition is
+    instantiated at all, an item is kept at the definition's path, and the tokens the model emits
+    for it parse ([parse_one_item]) to an item whose [strip_item] is the expected item of the
+    SOURCE definition *)
+Theorem C05_source_roundtrip :
+  forall defs L r s (order_tp : bool -> tpath),
+  RegistryOf defs L r -> (forall sd, In sd defs -> def_okb s sd = true) ->
+  prelude_okb s = true -> order_resolves s order_tp -> render_okb s defs = true ->
+  (forall d1 d2 sd1 sd2,
+     nth_error defs d1 = Some sd1 -> nth_error defs d2 = Some sd2 -> sd_path sd1 = sd_path sd2 -> d1 = d2) ->
+  forall d sd, nth_error defs d = Some sd ->
+  forallb (fun f => no_cow_cow (sf_ty f)) (def_sfields sd) = true ->
+  box_names_okb defs sd = true ->
+  forallb (fun f => apps_okb defs (sf_ty f) && field_conv_okb f) (def_sfields sd) = true ->
+  (forall lsb, sd_path sd <> order_path_of lsb) ->
+  (forall id args, L id = Some (SApp d args) ->
+     instantiation_cf defs sd args = true /\ map canon args = args /\ compact_fields_okb defs sd args = true) ->
+  forall teq m, generate r s teq = Ok m ->
+  forall id args, L id = Some (SApp d args) ->
+  exists id0 ir,
+    items_get m (sd_path sd) = Some (id0, ir) /\
+    (ir_plain s ir = true -> strip_item (item_of_ir s ir) = expected_of_source defs s order_tp sd) /\
+    forall toks, type_ir_tokens s ir = Ok toks -> ir_plain s ir = true ->
+      exists it, parse_one_item toks = Some it /\ strip_item it = expected_of_source defs s order_tp sd.
+Proof. exact source_roundtrip_item. Qed.
+Print Assumptions C05_source_roundtrip.
+
+(** ... and for the whole module, in the checker's own terms: the emitted module parses
+    ([parse_module]), [lookup_item] finds an item at the definition's path, and its [strip_item] is
+    the expected item ([prop_source_roundtrip]: [pitem_eqb (strip_item it) (expected_of c d)]) *)
+Theorem C05_source_roundtrip_module :
+  forall defs L r s (order_tp : bool -> tpath),
+  RegistryOf defs L r -> (forall sd, In sd defs -> def_okb s sd = true) ->
+  prelude_okb s = true -> order_resolves s order_tp -> render_okb s defs = true ->
+  (forall d1 d2 sd1 sd2,
+     nth_error defs d1 = Some sd1 -> nth_error defs d2 = Some sd2 -> sd_path sd1 = sd_path sd2 -> d1 = d2) ->
+  forall d sd, nth_error defs d = Some sd ->
+  forallb (fun f => no_cow_cow (sf_ty f)) (def_sfields sd) = true ->
+  box_names_okb defs sd = true ->
+  forallb (fun f => apps_okb defs (sf_ty f) && field_conv_okb f) (def_sfields sd) = true ->
+  (forall lsb, sd_path sd <> order_path_of lsb) ->
+  (forall id args, L id = Some (SApp d args) ->
+     instantiation_cf defs sd args = true /\ map canon args = args /\ compact_fields_okb defs sd args = true) ->
+  forall teq m, generate r s teq = Ok m ->
+  forall id args toks, L id = Some (SApp d args) ->
+  emit_module s m = Ok toks -> items_plain s m = true ->
+  exists pm it, parse_module toks = Some pm /\ lookup_item pm (sd_path sd) = Some it /\
+                strip_item it = expected_of_source defs s order_tp sd.
+Proof. exact source_roundtrip_module. Qed.
+Print Assumptions C05_source_roundtrip_module.
+
+(** "all instantiations of one definition yield one and the same item": [C05_one_item] carried
+    through the emission - the parse trees of the items printed for two coincidence-free
+    instantiations agree up to derives / docs / user attributes (no plainness hypothesis) *)
+Theorem C05_one_stripped_item :
+  forall defs L r s (order_tp : bool -> tpath),
+  RegistryOf defs L r -> (forall sd, In sd defs -> def_okb s sd = true) ->
+  prelude_okb s = true -> order_resolves s order_tp ->
+  forall d sd, nth_error defs d = Some sd ->
+  forallb (fun f => no_cow_cow (sf_ty f)) (def_sfields sd) = true -> box_names_okb defs sd = true ->
+  forall args1 args2 t1 t2 flat1 flat2 ir1 ir2,
+  instantiation_cf defs sd args1 = true -> map canon args1 = args1 -> compact_fields_okb defs sd args1 = true ->
+  instantiation_cf defs sd args2 = true -> map canon args2 = args2 -> compact_fields_okb defs sd args2 = true ->
+  entry_of defs L r (SApp d args1) t1 -> entry_of defs L r (SApp d args2) t2 ->
+  create_type_ir r s t1 flat1 = Ok (Some ir1) -> create_type_ir r s t2 flat2 = Ok (Some ir2) ->
+  strip_item (item_of_ir s ir1) = strip_item (item_of_ir s ir2).
+Proof. exact one_stripped_item. Qed.
+Print Assumptions C05_one_stripped_item.
+
+(** the correspondence with the checker's [expected_of]: it is [expected_of_settings] at the
+    program and the settings of the case (by conversion), and [expected_of_source] equals
+    [expected_of_settings] when the bit-order markers read as [::bits::order::{Lsb0,Msb0}] (needed
+    only for the bit orders of the bit sequences the definition mentions, [def_mentions_order]) *)
+Theorem C05_checker_expected_of :
+  forall c d, expected_of c d =
+              expected_of_settings (pg_defs (c5_prog c)) (settings_of (tg_spec (c5_tg c))) d.
+Proof. reflexivity. Qed.
+Print Assumptions C05_checker_expected_of.
+
+Theorem C05_expected_of_source_settings :
+  forall defs s order_tp d,
+  (forall lsb, def_mentions_order d lsb = true ->
+               tpath_pty (ProgramSkel.alloc_segs s) (order_tp lsb) = bits_order_pty lsb) ->
+  expected_of_source defs s order_tp d = expected_of_settings defs s d.
+Proof. exact expected_of_source_settings. Qed.
+Print Assumptions C05_expected_of_source_settings.
+
+(** the reading hypothesis of the last theorem holds for a bit order whose marker the settings
+    substitute by [::bits::order::{Lsb0,Msb0}] (the harness does so for the markers that occur in the
+    registry, harness/src/tg.rs [bit_order_subs]) *)
+Theorem C05_bits_order_reading :
+  forall (order_tp : bool -> tpath) lsb,
+  order_tp lsb = TPath (abs_path ["bits"; "order"; if lsb then "Lsb0" else "Msb0"]) [] ->
+  forall asegs, tpath_pty asegs (order_tp lsb) = bits_order_pty lsb.
+Proof. exact bits_order_reading. Qed.
+Print Assumptions C05_bits_order_reading.
+
+(** the checker on the model's own output: when the observed tokens ARE the model's tokens
+    ([corr_gen]), [prop_source_roundtrip] accepts.  Per definition with [cf_def c k sd] (all of its
+    recorded instantiations coincidence-free): the per-definition hypotheses of
+    [C05_source_roundtrip], the definition is interned at all, and every interned instantiation
+    (labels are in [canon] form) is the [canon] form of a recorded one ([insts_of c k]; coincidence-
+    freeness does not depend on the form: [C05_instantiation_cf_canon]) *)
+Theorem C05_instantiation_cf_canon :
+  forall defs d args, instantiation_cf defs d (map canon args) = instantiation_cf defs d args.
+Proof. exact instantiation_cf_canon. Qed.
+Print Assumptions C05_instantiation_cf_canon.
+
+Theorem C05_checker_accepts_model :
+  forall (c : c05_case) (order_tp : bool -> tpath) teq m toks,
+  let defs := pg_defs (c5_prog c) in
+  let r := tg_reg (c5_tg c) in
+  let s := settings_of (tg_spec (c5_tg c)) in
+  let L := label_at (c5_labels c) in
+  RegistryOf defs L r ->
+  (forall sd, In sd defs -> def_okb s sd = true) ->
+  prelude_okb s = true -> order_resolves s order_tp -> render_okb s defs = true ->
+  (forall d1 d2 sd1 sd2,
+     nth_error defs d1 = Some sd1 -> nth_error defs d2 = Some sd2 -> sd_path sd1 = sd_path sd2 -> d1 = d2) ->
+  (forall k sd, nth_error defs k = Some sd -> cf_def c k sd = true ->
+     forallb (fun f => no_cow_cow (sf_ty f)) (def_sfields sd) = true /\ box_names_okb defs sd = true /\
+     forallb (fun f => apps_okb defs (sf_ty f) && field_conv_okb f) (def_sfields sd) = true /\
+     (forall lsb, sd_path sd <> order_path_of lsb) /\
+     (forall lsb, def_mentions_order sd lsb = true ->
+                  tpath_pty (ProgramSkel.alloc_segs s) (order_tp lsb) = bits_order_pty lsb) /\
+     (exists id args, L id = Some (SApp k args)) /\
+     (forall id args, L id = Some (SApp k args) ->
+        (exists args', In args' (insts_of c k) /\ args = map canon args') /\
+        compact_fields_okb defs sd args = true)) ->
+  generate r s teq = Ok m -> emit_module s m = Ok toks -> items_plain s m = true ->
+  tg_gen (c5_tg c) = OOk toks ->
+  prop_source_roundtrip c = true.
+Proof. exact prop_source_roundtrip_of_model. Qed.
+Print Assumptions C05_checker_accepts_model.
+
+(** ... and all of these hypotheses as ONE boolean on a case, [hyp_emission_theorem]
+    (Corr/RunC05Emit.v: [registry_ofb], [prelude_nodocs_b], [def_okb], [prelude_okb],
+    [order_resolvesb], [render_okb], pairwise distinct paths, per coincidence-free definition
+    [def_emission_okb], the model generates and emits plain items; vacuous when the model does not
+    emit a module).  On every case on which it holds, the verdict of the checker is a CONSEQUENCE of
+    the model correspondence [corr_gen] *)
+From V Require Import Corr.RunC05Emit.
+Theorem C05_checker_verdict_from_correspondence :
+  forall c : c05_case,
+    hyp_emission_theorem c = true -> corr_gen (c5_tg c) = true -> prop_source_roundtrip c = true.
+Proof. exact hyp_emission_sound. Qed.
+Print Assumptions C05_checker_verdict_from_correspondence.
+
+(** (3) examples, both sides computed: left, the model generates, emits the module, the tokens are
+    read back, the item is looked up ([model_item_at]) and stripped; right, [expected_item] of the
+    source definition.
+    ex8 [a::Ph<T, U, V> { x: Vec<T>, #[codec(compact)] n: u32 }]: two unused parameters, marker
+    field [#[codec(skip)] pub __ignore: PhantomData<(_1, _2)>] *)
+Theorem C05_example_emission_marker :
+  option_map strip_item (model_item_at ex8_reg ex8_s ["a"; "Ph"]) =
+    Some (expected_of_source ex8_defs ex8_s ex8_otp ex8_sd) /\
+  expected_of_source ex8_defs ex8_s ex8_otp ex8_sd =
+  mk_pitem [] false "Ph" ["_0"; "_1"; "_2"]
+    (BNamed [mk_pfield [] true (Some "x") (PPath true [("std", []); ("vec", []); ("Vec", [PPath false [("_0", [])]])]);
+             mk_pfield [["codec"; "("; "compact"; ")"]] true (Some "n")
+                       (PPath true [("core", []); ("primitive", []); ("u32", [])]);
+             mk_pfield [["codec"; "("; "skip"; ")"]] true (Some "__ignore")
+                       (PPath true [("core", []); ("marker", []);
+                                    ("PhantomData", [PTuple [PPath false [("_1", [])]; PPath false [("_2", [])]]])])])
+    [] false.
+Proof. exact (conj ex8_roundtrip ex8_expected). Qed.
+Print Assumptions C05_example_emission_marker.
+
+(** ex9 [a::En<T, U> { A(T, Box<Vec<T>>) = 0, B { n: Compact<u32> } = 1, C = 5 }]: an enum, U unused *)
+Theorem C05_example_emission_enum :
+  option_map strip_item (model_item_at ex9_reg ex8_s ["a"; "En"]) =
+    Some (expected_of_source ex9_defs ex8_s ex8_otp ex9_sd) /\
+  expected_of_source ex9_defs ex8_s ex8_otp ex9_sd =
+  mk_pitem [] true "En" ["_0"; "_1"] BUnit
+    [mk_pvariant [["codec"; "("; "index"; "="; "0"; ")"]] "A"
+       (BTuple [mk_pfield [] false None (PPath false [("_0", [])]);
+                mk_pfield [] false None
+                  (PPath true [("std", []); ("boxed", []);
+                               ("Box", [PPath true [("std", []); ("vec", []); ("Vec", [PPath false [("_0", [])]])]])])]);
+     mk_pvariant [["codec"; "("; "index"; "="; "1"; ")"]] "B"
+       (BNamed [mk_pfield [["codec"; "("; "compact"; ")"]] false (Some "n")
+                          (PPath true [("core", []); ("primitive", []); ("u32", [])])]);
+     mk_pvariant [["codec"; "("; "index"; "="; "5"; ")"]] "C" BUnit;
+     mk_pvariant [] "__Ignore"
+       (BTuple [mk_pfield [] false None
+                  (PPath true [("core", []); ("marker", []); ("PhantomData", [PPath false [("_1", [])]])])])]
+    false.
+Proof. exact (conj ex9_roundtrip ex9_expected). Qed.
+Print Assumptions C05_example_emission_enum.
+
+(** the programs of Model/ProgramExamples.v and of [C05_example] *)
+Theorem C05_example_emission_programs :
+  option_map strip_item (model_item_at ex6_reg ex6_s ["a"; "Bar"]) =
+    Some (expected_of_source ex6_defs ex6_s ex6_otp ex6_sd) /\
+  option_map strip_item (model_item_at ex7_reg f19_s ["a"; "Pt"]) =
+    Some (expected_of_source ex7_defs f19_s (order_tp_of f19_s) ex7_sd) /\
+  option_map strip_item (model_item_at ex5_reg ex5_s ["a"; "Foo"]) =
+    Some (expected_of_source ex5_defs ex5_s ex5_otp ex5_sd).
+Proof. exact (conj ex6_roundtrip (conj ex7_roundtrip ex5_roundtrip)). Qed.
+Print Assumptions C05_example_emission_programs.
+
+(** non-vacuity of [C05_source_roundtrip_module]: on ex8 the registry is the program's
+    ([registry_ofb]), generation and emission succeed on plain items, and the conclusion is obtained
+    FROM THE THEOREM (every hypothesis is discharged in Proofs/SourceEmission.v [ex8_by_theorem]) *)
+Theorem C05_example_emission_by_theorem :
+  registry_ofb ex8_defs ex8_labels ex8_reg = true /\ registry_ofb ex9_defs ex9_labels ex9_reg = true /\
+  (exists m toks, generate ex8_reg ex8_s (types_equal ex8_reg) = Ok m /\ emit_module ex8_s m = Ok toks /\
+                  items_plain ex8_s m = true) /\
+  (forall m toks,
+     generate ex8_reg ex8_s (types_equal ex8_reg) = Ok m -> emit_module ex8_s m = Ok toks ->
+     items_plain ex8_s m = true ->
+     exists pm it, parse_module toks = Some pm /\ lookup_item pm ["a"; "Ph"] = Some it /\
+                   strip_item it = expected_of_source ex8_defs ex8_s ex8_otp ex8_sd).
+Proof.
+  exact (conj (proj1 ex8_facts) (conj (proj1 (proj2 ex8_facts)) (conj (proj2 (proj2 ex8_facts)) ex8_by_theorem))).
+Qed.
+Print Assumptions C05_example_emission_by_theorem.
